@@ -10,7 +10,8 @@ Inductive sem_kind :=
 | STag                          (* returns ('tag', rule index, ast) *)
 | SFailIf (s : str)             (* raises FailedSemantics when the ast is the string s, else identity *)
 | SRaiseIf (s : str) (exn : nat)(* raises exception class #exn when the ast is the string s, else identity *)
-| SConst (v : value).           (* returns a constant *)
+| SConst (v : value)            (* returns a constant *)
+| SWrap.                        (* returns [ast]: a plain Python list holding the argument *)
 
 Definition is_vstr (v : value) (s : str) : bool :=
   match v with VStr t => str_eqb s t | _ => false end.
@@ -23,6 +24,7 @@ Definition act_kind (k : sem_kind) (r : nat) (v : value) : aret :=
   | SFailIf s => if is_vstr v s then AFailed else ARet v
   | SRaiseIf s x => if is_vstr v s then ARaise x else ARet v
   | SConst c => ARet c
+  | SWrap => ARet (VList false [v])
   end.
 
 (* per-rule methods, with `_default` for the rest *)
